@@ -84,8 +84,13 @@ func OpenStoreRoots(env *Env, cfg Config, roots []cid.Cid) (st Store, err error)
 	// the store gets the caller's own slice, which the caller puts to other use as soon as the
 	// constructor has returned: a store was given the roots' values, not the right to read them later
 	if roots != nil {
+		pristine := roots
 		roots = append(make([]cid.Cid, 0, len(roots)), roots...)
 		defer func() {
+			// ... and it was not given the right to change them either
+			if err == nil && !sameCids(roots, pristine) {
+				st, err = nil, fmt.Errorf("harness: the constructor changed the caller's roots slice: now %v, was %v", roots, pristine)
+			}
 			for i := range roots {
 				roots[i] = scribbleCid
 			}
